@@ -469,15 +469,15 @@ type bfOp struct {
 	ow     string // WRAP, SAT, FAIL
 }
 
-// bfType is getBitfieldTypeFromArgument: i1..i64, u1..u63 (the letter in either case).
+// bfType is getBitfieldTypeFromArgument: i1..i64, u1..u63 (Redis tests the lower-case letter only).
 func bfType(s string) (signed bool, bits int, st argState) {
 	if s == "" {
 		return false, 0, argBad
 	}
 	switch s[0] {
-	case 'i', 'I':
+	case 'i':
 		signed = true
-	case 'u', 'U':
+	case 'u':
 	default:
 		return false, 0, argBad
 	}
